@@ -89,6 +89,60 @@ def aglText (gl : GlyphList) : Option Name → Option Text
   | none => none
   | some n => let t := aglSpec gl n; if t.isEmpty then none else some t
 
+/-! ### pdfminer's glyph-name algorithm for EVERY name: AGL section 2 with its two deliberate deviations
+
+(D1) the hexadecimal digits after `uni` / `u` may be of either case (pinned by pdfminer's unit tests; AGL:
+upper case only); (D2) a component without a value makes the whole name undefined (AGL: it contributes the
+empty string and the other components are kept). -/
+
+/-- `0`-`9`, `A`-`F`, `a`-`f` (by code point). -/
+def anyHexVal (c : Char) : Option Nat :=
+  match upperHexVal c with
+  | some v => some v
+  | none => let n := c.toNat; if 97 ≤ n ∧ n ≤ 102 then some (n - 87) else none
+
+def isAnyHex (c : Char) : Bool := (anyHexVal c).isSome
+
+def anyHexNum (s : List Char) : Nat := s.foldl (fun acc c => acc * 16 + (anyHexVal c).getD 0) 0
+
+/-- `uniForm` with digits of either case. -/
+def uniFormL (c : Name) : Option Text :=
+  if c.take 3 = ['u', 'n', 'i'] then
+    let r := c.drop 3
+    if r.all isAnyHex && r.length % 4 == 0 then
+      let vs := (fours r).map anyHexNum
+      if vs.all isScalar then some vs else none
+    else none
+  else none
+
+/-- `uForm` with digits of either case. -/
+def uFormL (c : Name) : Option Text :=
+  if c.take 1 = ['u'] then
+    let r := c.drop 1
+    if r.all isAnyHex && 4 ≤ r.length && r.length ≤ 6 && isScalar (anyHexNum r) then some [anyHexNum r]
+    else none
+  else none
+
+/-- Step 3 for one component, deviation (D1). -/
+def aglCompL (gl : GlyphList) (c : Name) : Text :=
+  match glLookup gl c with
+  | some t => t
+  | none =>
+    match uniFormL c with
+    | some t => t
+    | none =>
+      match uFormL c with
+      | some t => t
+      | none => []
+
+/-- The exact algorithm: drop the suffix, split at underscores, map every component (D1); undefined when a
+component has no value (D2), else the concatenation. -/
+def pdfminerAgl (gl : GlyphList) : Option Name → Option Text
+  | none => none
+  | some n =>
+    let vs := (components (dropSuffix n)).map (aglCompL gl)
+    if vs.all (fun t => !t.isEmpty) then some vs.flatten else none
+
 /-! ### The grammar of the property: well-formed glyph names -/
 
 /-- A component of the grammar: a list name, `uni` + one or more groups of four uppercase hex digits
@@ -342,6 +396,42 @@ def judgedCodeX (T : Tables) (fd : FontDict) (code : Int) : Bool :=
     | some _ => true
     | none => judgedEncName T fd code
   | none => judgedEncName T fd code
+
+/-! ### The specification for EVERY font dictionary and EVERY code (no judged domain): glyph names valued by
+`pdfminerAgl` (AGL + D1 + D2), ToUnicode by `tuTextExact` -/
+
+def encTextP (T : Tables) (name : String) (diff : List DiffTok) (code : Int) : Option Text :=
+  match lastAssigned (assignments 0 diff) code with
+  | some nm => pdfminerAgl T.gl nm
+  | none => pdfminerAgl T.gl (baseName T.rows (encColumn T.cols T.dflt name) code)
+
+def encodingTextP (T : Tables) (fd : FontDict) (code : Int) : Option Text :=
+  match usesBuiltin T fd with
+  | some ff =>
+    match builtinName ff code with
+    | some nm => pdfminerAgl T.gl nm
+    | none => none
+  | none =>
+    match fd.enc with
+    | .absent => encTextP T "StandardEncoding" [] code
+    | .named n => encTextP T n [] code
+    | .dict base diff => encTextP T (base.getD "StandardEncoding") diff code
+
+def specUnicodeP (T : Tables) (fd : FontDict) (code : Int) : Option Text :=
+  match fd.toUnicode with
+  | some es =>
+    match tuTextExact (tuDefs es) code with
+    | some t => some t
+    | none => encodingTextP T fd code
+  | none => encodingTextP T fd code
+
+def specTextP (T : Tables) (fd : FontDict) (code : Int) : Text :=
+  match specUnicodeP T fd code with
+  | some t => t
+  | none => specPlaceholder code
+
+def specWidthP (T : Tables) (fd : FontDict) (code : Int) : Rat :=
+  specWidthOf T fd code (specUnicodeP T fd code)
 
 /-! ### Font dictionaries with the raw FontFile stream -/
 
